@@ -89,6 +89,48 @@ def disconnect_after_prefix(p: int) -> bool:
     return ok
 
 
+def _prev_peer_turn(name, turn):
+    prev = [t for t in prov.peer_turns(CORPUS[name][1]) if t < turn]
+    return prev[-1] if prev else None
+
+
+@cond(bounds='thorough tier: as disconnect_after_prefix, and in addition the peer turn BEFORE the one that is cut short is itself '
+             'delivered in two segments cut at a symbolic offset c (unbounded symbolic integer; all cuts at once): segmentation '
+             'history and disconnection point together', tiers=('thorough',),
+      family=[i for i in INSTANCES if _prev_peer_turn(i['conv'], i['turn']) is not None], timeout=240, thorough_timeout=900)
+def disconnect_after_prefix_segmented(p: int, c: int) -> bool:
+    """
+    pre: 0 <= p <= len(CORPUS[fam('conv')][1][fam('turn')][1])
+    pre: 0 <= c <= len(CORPUS[fam('conv')][1][_prev_peer_turn(fam('conv'), fam('turn'))][1])
+    post: _
+    """
+    name, turn = fam('conv'), fam('turn')
+    before = _prev_peer_turn(name, turn)
+    acc, turns = CORPUS[name]
+    cut = []
+    for i, t in enumerate(turns):
+        if i < turn:
+            cut.append(t)
+        elif i == turn:
+            cut.append(t)
+            cut.append((fam('how'), None, t[2]))
+        elif t[0] == 'user':
+            cut.append(t)
+
+    def seg(i, raw):
+        if i == turn:
+            return windows(raw, (p,))[:1] if p > 0 else [None]
+        if i == before:
+            return windows(raw, (c,))
+        return pdu_split(raw)
+    conv = prov.Conversation(cut, acceptor=acc, segmenter=seg)
+    conv.drop_none = True
+    tr = conv.run()
+    ok = ended_cleanly(tr, conv)
+    deep(ok and 3 < p < 9 and 2 < c < 12)
+    return ok
+
+
 def _silent(name, upto, extra_user=()):
     """conversation `name` truncated before turn index `upto` (the peer then stays silent and never closes)"""
     acc, turns = CORPUS[name]
@@ -373,7 +415,7 @@ def explain(cname, args, famv):
         return 'association A in %s, clock advanced by %d s after association B was %s: A must be idle and closed iff ' \
                'more than 10 s have passed' % (famv['a_state'], args['dt'], 'served before A connected' if args['b_first']
                                                 else 'served while A was waiting')
-    if cname == 'disconnect_after_prefix':
+    if cname in ('disconnect_after_prefix', 'disconnect_after_prefix_segmented'):   # (the explanation re-runs without the extra cut)
         name, turn, p = famv['conv'], famv['turn'], args['p']
         acc, turns = CORPUS[name]
         cut = []
